@@ -174,6 +174,101 @@ def firstBad (g : SGraph) (min eps : Rat) (maxDepth : Nat) (seed : Nat) (tr : AT
         | none => true
       else true).getD tr.length
 
+/-! ### which edges a pass may use (`Node.get_same_concept_inferences`)
+
+An edge to a hub is always used, an edge of an inter-concept relation never, an edge of an
+intra-concept relation always; an edge from a hub to an object node only when the node's concept is
+in scope: the concept names collected in the seed so far (`seed.concept_name_equivalents`: the seed's
+own, plus those of every node reached through an intra-concept relation) that share a branch with
+the node's concept name confirm it with their confidences (noisy-or), times the confidence of the
+hub, and that must exceed the requested minimum. -/
+
+inductive EKind | toHub | sameObject | intra | inter
+deriving DecidableEq, Repr
+
+/-- an outgoing edge as `get_same_concept_inferences` sees it -/
+structure OEdge where
+  tgt : Nat
+  conf : Rat
+  kind : EKind
+  /-- concept name of the target node (object nodes) -/
+  concept : String
+deriving Repr
+
+/-- `seed.concept_name_equivalents`: concept name, node, confidence -/
+abbrev Equivs := List (String × Nat × Rat)
+
+def setEquiv (q : Equivs) (cn : String) (node : Nat) (c : Rat) : Equivs :=
+  if q.any (fun e => e.1 == cn && e.2.1 == node) then q.map fun e => if e.1 == cn && e.2.1 == node then (cn, node, c) else e
+  else q ++ [(cn, node, c)]
+
+/-- `Concept.concept_names_share_branch`: the shorter name is a prefix of the longer one -/
+def shareBranch (a b : String) : Bool :=
+  let (s, l) := if a.length > b.length then (b, a) else (a, b)
+  s.toList == l.toList.take s.length
+
+/-- `check_node_concept_in_scope` -/
+def inScope (q : Equivs) (concept : String) : Rat :=
+  let cs := (q.filter fun e => shareBranch e.1 concept).map (·.2.2)
+  if cs.isEmpty then 0 else noisyOr cs
+
+/-- `_inference_same_concept`, granting the product the slack `eps` on either side of the cut-off:
+`some true` the edge must be used, `some false` it must not, `none` either is right -/
+def admissible (q : Equivs) (min eps scSelf : Rat) (e : OEdge) : Option Bool :=
+  match e.kind with
+  | .toHub => some true
+  | .intra => some true
+  | .inter => some false
+  | .sameObject =>
+    let x := inScope q e.concept * scSelf
+    if min + eps < x then some true else if x ≤ min - eps then some false else
+    if eps = 0 then some (decide (min < x)) else none
+
+/-- an edge of the full trace: the edge, whether the pass considered it, and the confidence it assigned through it -/
+structure FEdge where
+  edge : OEdge
+  considered : Bool
+  assigned : Option Rat
+deriving Repr
+
+abbrev FTrace := List (Nat × List FEdge)
+
+def scopeOk (q : Equivs) (min eps scSelf : Rat) (es : List FEdge) : Bool :=
+  es.all fun f => (match admissible q min eps scSelf f.edge with
+    | some b => b == f.considered
+    | none => true) && (f.considered || f.assigned.isNone)
+
+/-- what the pass is checked on by `runC`: the considered edges, in order -/
+def proj (es : List FEdge) : List (SEdge × Option Rat) :=
+  (es.filter (·.considered)).map fun f => (({ tgt := f.edge.tgt, conf := f.edge.conf } : SEdge), f.assigned)
+
+/-- `RelationInference.reason`: reaching a node through an intra-concept relation adds its concept name -/
+def learn (q : Equivs) (es : List FEdge) : Equivs :=
+  es.foldl (fun q f => match f.edge.kind, f.considered, f.assigned with
+    | .intra, true, some c => setEquiv q f.edge.concept f.edge.tgt c
+    | _, _, _ => q) q
+
+def stepsC2 (g : SGraph) (min eps : Rat) (maxDepth : Nat) : SState → Equivs → FTrace → Option (SState × Equivs)
+  | s, q, [] => (stepsC g min eps maxDepth s []).map fun s' => (s', q)
+  | s, q, (n, es) :: rest =>
+    if isMax s n && guardOk min maxDepth s n && scopeOk q min eps (s.scD n) es then
+      match visitC g min eps s n (proj es) with
+      | some s' => stepsC2 g min eps maxDepth s' (learn q es) rest
+      | none => none
+    else none
+
+/-- the whole pass with the scope filter checked -/
+def runC2 (g : SGraph) (min eps : Rat) (maxDepth : Nat) (seed : Nat) (seedConcept : String) : FTrace → Option (SState × Equivs)
+  | [] => (runC g min eps maxDepth seed []).map fun s => (s, [(seedConcept, seed, 1)])
+  | (n, es) :: rest =>
+    if n = seed ∧ guardOk min maxDepth (SState.init seed) seed ∧ scopeOk [(seedConcept, seed, 1)] min eps 1 es = true then
+      match visitC g min eps (SState.init seed) seed (proj es) with
+      | some s' => stepsC2 g min eps maxDepth s' (learn [(seedConcept, seed, 1)] es) rest
+      | none => none
+    else none
+
+def FTrace.proj (tr : FTrace) : ATrace := tr.map fun p => (p.1, Edxml.Miner.proj p.2)
+
 /-! ### seed selection (`find_optimal_seed` as `_auto_mine` calls it)
 
 `sorted(candidates, key=(1 - taint, association confidence), reverse=True)[0]` over the event object
